@@ -62,8 +62,8 @@ Fixpoint compile_body_arg (t : term) (vs : list Z) : list Z * list instr :=
   | c => (vs, [IPutConst c])
   end.
 
-(** compilePred; None = errNotCallable *)
-Definition compile_pred (g : term) (vs : list Z) : option (list Z * list instr) :=
+(** compilePred; None = errNotCallable.  A conjunction in goal position is compiled in line. *)
+Definition compile_pred1 (g : term) (vs : list Z) : option (list Z * list instr) :=
   match g with
   | Var v =>  (* a variable goal becomes call(V) *)
       let '(vs', c) := compile_body_arg (Var v) vs in Some (vs', c ++ [ICall "call" 1])
@@ -76,6 +76,25 @@ Definition compile_pred (g : term) (vs : list Z) : option (list Z * list instr) 
       Some (vs', code ++ [ICall f (List.length args)])
   | _ => None
   end.
+
+Fixpoint compile_pred_f (fuel : nat) (g : term) (vs : list Z) : option (list Z * list instr) :=
+  match fuel with
+  | O => compile_pred1 g vs
+  | S f =>
+      match g with
+      | Cmp "," [x; y] =>
+          match compile_pred_f f x vs with
+          | None => None
+          | Some (vs1, c1) =>
+              match compile_pred_f f y vs1 with
+              | None => None
+              | Some (vs2, c2) => Some (vs2, c1 ++ c2)
+              end
+          end
+      | _ => compile_pred1 g vs
+      end
+  end.
+Definition compile_pred (g : term) (vs : list Z) : option (list Z * list instr) := compile_pred_f (tsize g) g vs.
 
 (** seqIterator: a right-nested conjunction is flattened, nothing else *)
 Fixpoint seq_goals (fuel : nat) (b : term) : list term :=
